@@ -96,6 +96,29 @@ static void do_bool(const J& g, W& w) {
         w.kv("big2_err", b2err);
         free_polys(A2);
         free_polys(B2);
+        // and on the grid 2^-29 with both operands moved by (-6, -6): scaled coordinates stay within
+        // +-3 * 2^30, between the two ranges of the clipping arithmetic (2^30 < |c| < 2^32), while
+        // coordinate differences reach 1.5 * 2^32 and their products are multiples of 2^58 beyond 2^64
+        // (8 x 8 grid steps wrap to exactly zero in 64-bit arithmetic)
+        Array<Polygon*> A3 = {}, B3 = {};
+        mk_group(g["a"], A3);
+        mk_group(g["b"], B3);
+        for (Array<Polygon*>* G : {&A3, &B3})
+            for (uint64_t i = 0; i < G->count; i++)
+                for (uint64_t k = 0; k < (*G)[i]->point_array.count; k++) (*G)[i]->point_array[k] -= Vec2{6, 6};
+        int64_t b3err = 0;
+        w.key("big3").begin_arr();
+        for (int k = 0; k < 4; k++) {
+            Array<Polygon*> res = {};
+            ErrorCode e = boolean(A3, B3, ops[k], 536870912.0, res);
+            if (e != ErrorCode::NoError) b3err = (int64_t)e;
+            w.i((int64_t)llround(area_of(res) * 1000));
+            free_polys(res);
+        }
+        w.end_arr();
+        free_polys(A3);
+        free_polys(B3);
+        w.kv("big3_err", b3err);
     }
 }
 
